@@ -77,7 +77,7 @@ CLAIMS = {
              'condDistrib a.e. equal to it, the sampling scheme "draw N(0, Sigma_bar), add G z" reproduces the joint law, and '
              'the (mean, cov) the model hands to the sampler IS that kernel at z; np.linalg.inv is a parameter with hypothesis; '
              'that numpy draws from N(mean, cov) is trusted; statistical bands only in deep search',
-        tech='Lean 4 proof over a hand-written model with as-found/repaired variants + correspondence on recorded draws',
+        tech='Lean 4 proof over a hand-written model with as-found/repaired variants + model of the conditional-sampling path regenerated from the source (gen_gausscond; Props/C12c proves generated = model and transfers the theorems; tv:GaussCond compares real code vs generated definitions) + correspondence on recorded draws',
         ref='5 C12'),
     'C15': dict(
         text='Lean 4 theorems (core Lean, every finite history over any number of models): global stream preserved by seeded '
